@@ -5,6 +5,7 @@ import numpy as np
 
 from . import common as C
 from translate import ufunc_deriv as T
+from translate import derivatives as TD
 
 PID = 'C06'
 SHARD_SIZE = 150
@@ -40,7 +41,7 @@ TRUSTED = ['translate/ufunc_deriv.py (Python ast -> Gallina tables), fail-closed
 
 
 def translate():
-    return {'Gen/UfuncDeriv.v': T.translate()}
+    return {'Gen/UfuncDeriv.v': T.translate(), 'Gen/Derivatives.v': TD.translate()}
 
 
 # ------------------------------------------------------------------ spaces
